@@ -2,12 +2,14 @@
   C19 — hand-written model of css/counters/counters.go (counter-style algorithms).
 
   Mirrors the Go code as it is, quirks included:
-    * Go `%` and `/` are `Int.tmod` / `Int.tdiv`; an index outside a slice, a division by zero and a
-      negative `strings.Repeat` count are run-time panics and are modelled as `.panic`;
-    * `len(initial)` in the pad step is the BYTE length (`String.utf8ByteSize`);
-    * `renderValue` falls back with the value it has at that point (already made absolute in step 3);
-    * the auto range is [math.MinInt32, math.MaxInt32]; a value outside it makes the
-      decimal-fallback recursion unbounded (the Go process dies of stack exhaustion): `.diverge`.
+    * Go `%` and `/` are `Int.tmod` / `Int.tdiv`; an index outside a slice and a negative
+      `strings.Repeat` count are run-time panics and are modelled as `.panic` (after the fixes bea1e31
+      and 8517e56 of /repo no input of the generators reaches one);
+    * the pad step counts characters (utf8.RuneCountInString = `String.length`; bytes before 361be39);
+    * the fallback styles get the original signed value (the absolute value before fbc9c7a);
+    * the auto range is [math.MinInt, math.MaxInt] (64-bit: unbounded for every Go int; it was the
+      32-bit range before the fix c5a853c, which made values beyond it recurse forever);
+      `.diverge` = the fuel of the extends / fallback resolution ran out (never, see Total.lean).
   Go slices: `nil` and empty are identified (the descriptor parser never produces a non-nil empty
   slice).  Go `map[string]CounterStyleDescriptors` = association list, first binding wins.
 -/
@@ -82,10 +84,13 @@ def symAt (symbols : List NS) (i : Int) : Option String :=
 
 /-! ### per-system algorithms -/
 
-/-- `repeating` (system cyclic) -/
+/-- `repeating` (system cyclic): `index := (value-1) % L; if index < 0 { index += L }` -/
 def repeating (symbols : List NS) (value : Int) : Res :=
   if symbols.length = 0 then .no
-  else match symAt symbols ((value - 1).tmod symbols.length) with
+  else
+    let index := (value - 1).tmod symbols.length
+    let index := if index < 0 then index + symbols.length else index
+    match symAt symbols index with
     | some s => .ok s
     | none => .panic "index out of range"
 
@@ -100,7 +105,7 @@ def nonRepeating (symbols : List NS) (first value : Int) : Res :=
 
 /-- `symbolic` -/
 def symbolic (symbols : List NS) (value : Int) : Res :=
-  if symbols.length = 0 then .no
+  if symbols.length = 0 ∨ value < 1 then .no
   else
     let L : Int := symbols.length
     let index := (value - 1).tmod L
@@ -129,22 +134,20 @@ def numDigits (L v : Nat) : List Nat := numLoop L v v
 def collect (symbols : List NS) (idx : List Nat) : Option (List String) :=
   idx.mapM (fun i => (symbols[i]?).map symbol)
 
-/-- `alphabetic`.  Only ever called by renderValue with `value ≥ 0`; on a negative value the Go
-    function either panics (negative index) or never returns: modelled as `.panic`. -/
+/-- `alphabetic` -/
 def alphabetic (symbols : List NS) (value : Int) : Res :=
-  if symbols.length < 2 then .no
-  else if value < 0 then .panic "alphabetic: negative value"
+  if symbols.length < 2 ∨ value < 1 then .no
   else match collect symbols (alphaDigits symbols.length value.toNat).reverse with
     | some parts => .ok (concat parts)
     | none => .panic "index out of range"
 
 /-- `numeric` -/
 def numeric (symbols : List NS) (value : Int) : Res :=
-  if value = 0 then
+  if symbols.length < 2 then .no
+  else if value = 0 then
     match symAt symbols 0 with
     | some s => .ok s
     | none => .panic "index out of range"
-  else if symbols.length < 2 then .no
   else match collect symbols (numDigits symbols.length value.natAbs).reverse with
     | some parts => .ok (concat parts)
     | none => .panic "index out of range"
@@ -153,7 +156,7 @@ def numeric (symbols : List NS) (value : Int) : Res :=
 def additiveLoop : List (Int × NS) → Int → List String → Res
   | [], _, _ => .no
   | (w, s) :: rest, value, parts =>
-    if w = 0 then .panic "integer divide by zero"
+    if w = 0 then additiveLoop rest value parts   -- `continue`: a zero weight only represents 0
     else
       let rep := value.tdiv w
       if rep < 0 then .panic "strings: negative Repeat count"
@@ -271,11 +274,14 @@ def rvLoop (c : Table) : Nat → Desc → List String → String → String → 
 
 def minInt32 : Int := -2147483648
 def maxInt32 : Int := 2147483647
+/-- math.MinInt / math.MaxInt on the 64-bit platforms the code runs on -/
+def minInt : Int := -9223372036854775808
+def maxInt : Int := 9223372036854775807
 
 /-- step 2: the ranges actually used -/
 def effRanges (d : Desc) (system : String) : List (Int × Int) :=
   if d.rangeAuto || d.rangeIsNone then
-    [(if system = "alphabetic" ∨ system = "symbolic" then 1 else if system = "additive" then 0 else minInt32, maxInt32)]
+    [(if system = "alphabetic" ∨ system = "symbolic" then 1 else if system = "additive" then 0 else minInt, maxInt)]
   else d.ranges
 
 def inRanges (rs : List (Int × Int)) (v : Int) : Bool := rs.any (fun r => r.1 ≤ v ∧ v ≤ r.2)
@@ -285,8 +291,8 @@ def usesNegative (system : String) : Bool :=
 
 /-- steps 4-6 -/
 def finish (d : Desc) (negative : Bool) (negPre negSuf : String) (initial : String) : String :=
-  let diff : Int := d.padLen - initial.utf8ByteSize
-  let diff := if negative then diff - (negPre.utf8ByteSize + negSuf.utf8ByteSize) else diff
+  let diff : Int := d.padLen - initial.length
+  let diff := if negative then diff - (negPre.length + negSuf.length) else diff
   let padded := if diff > 0 then repeatStr (symbol d.padSym) diff.toNat ++ initial else initial
   if negative then negPre ++ padded ++ negSuf else padded
 
@@ -307,8 +313,8 @@ def systemStep (d : Desc) (system : String) (number : Int) (v : Int) : Step :=
   if system = "cyclic" then ofRes (repeating d.symbols v) .decimal
   else if system = "fixed" then
     if d.symbols.length = 0 then .decimal else ofRes (nonRepeating d.symbols number v) .fallback
-  else if system = "symbolic" then ofRes (symbolic d.symbols v) .decimal
-  else if system = "alphabetic" then ofRes (alphabetic d.symbols v) .decimal
+  else if system = "symbolic" then ofRes (symbolic d.symbols v) .fallback
+  else if system = "alphabetic" then ofRes (alphabetic d.symbols v) .fallback
   else if system = "numeric" then ofRes (numeric d.symbols v) .decimal
   else if system = "additive" then
     if d.additive.length = 0 then .decimal else ofRes (additive d.additive v) .fallback
@@ -334,8 +340,8 @@ def stepResolved (c : Table) (v : Int) (counter : Desc) (p0 : List String) (ext 
       let negPre := if negZ then "-" else symbol counter.neg1
       let negSuf := if negZ then "" else symbol counter.neg2
       let useNeg := isNeg && usesNegative system
-      let v := if useNeg then (v.natAbs : Int) else v
-      match systemStep counter system number v with
+      -- the algorithm runs on the absolute value, the fallback styles get the original (signed) value
+      match systemStep counter system number (if useNeg then (v.natAbs : Int) else v) with
       | .panic w => .ret (.panic w)
       | .decimal => .decimal v
       | .fallback => .fallback counter.fallbackName p v
